@@ -15,10 +15,18 @@ Space: every multiset of <= K fragment letters; a letter = (mate gap, variant, R
 {single-end, overlap, adjacent, small gaps, gap == max_N_span, gaps > max_N_span}, variant in {clean, R1 carries
 a mismatch at q30 / q10 (inside the mate overlap when there is one), R2 carries a mismatch behind the gap};
 x molecule strand x class x max_N_span in {None, 5} x api x with / without source reads.
+Further letters (words of <= 2 letters in the quick tier): a fragment whose R2 is UNMAPPED (flag 4, placed at its mate, no
+CIGAR), R1 with a one-base deletion (a covered block of exactly one position / a hole of exactly one base), R1 soft
+clipped at its far end (leading clip on the reverse strand).  Solo letters (one-fragment molecules, every api incl. the
+command line): R1 UNMAPPED + R2 mapped - a molecule with a mapped fragment but without a strand (the plain classes also
+group 2-3 such fragments) -, and two mapped pairs a site-bearing class rejects (R1 off the CATG, mates on the same strand):
+the molecule iterator hands rejected fragments out as molecules and the tagger requests their consensus unless
+--no_rejects is given.  write_pysam's consensus_read_callback option (without / with kwargs) on all one-letter words.
+Nothing is demanded about the strand flag or the DS tag of a molecule without strand / site.
 
 Oracle (from the property text): union of aligned blocks == union of read coverage (records disjoint);
 len(seq) == len(qual) == query length of the CIGAR; reference rebuilt from MD == true reference on the aligned
-blocks; per position the model-independent consequences of "most likely call": unanimous => that base,
+blocks (the reference FILE is partly lower case; no MD letter where the record carries that very base); per position the model-independent consequences of "most likely call": unanimous => that base,
 symmetric evidence => N, strictly dominating evidence => that base; SM / RX / DS / TF / TR tags.
 """
 import atexit
@@ -33,19 +41,27 @@ from gen import c13_reads as G
 
 ID = 'C15'
 DESIGN_REF = 'DESIGN.md section 3, C15'
-RULE = ('every multiset of <= K fragment letters (mate gap x variant x R1 length) x strand x molecule class x '
-        'max_N_span x api (deduplicate_majority / write_pysam read back / run_tagging_task consensus_mode=majority) x '
-        'source reads on/off; a case is non-trivial when the coverage has a gap or some position carries '
-        'conflicting observations; states = distinct cases')
+RULE = ('every multiset of <= K fragment letters (mate gap x variant x R1 length; variants include an unmapped R2, a '
+        'deletion and a soft clip in R1) x strand x molecule class x '
+        'max_N_span x api (deduplicate_majority / write_pysam read back [+ consensus_read_callback] / run_tagging_task '
+        'consensus_mode=majority) x source reads on/off; plus the solo letters (R1 unmapped = strand-less molecule; pairs '
+        'rejected by a site-bearing class) as one-fragment molecules through every api and, for the plain classes, every '
+        'multiset of <= 2 (thorough 3) strand-less fragments; a case is non-trivial when the coverage has a gap or some '
+        'position carries conflicting observations (solo cases always); states = distinct cases')
 ASSUMPTIONS = [
     'bases ACGT with phred 10 or 30 (at these qualities a unanimous observation is more likely than "N")',
-    'all fragments of a molecule share sample, UMI and cut site; reads map to one contig without indels or clipping',
+    'all fragments of a molecule share sample, UMI and cut site; mapped reads map to one contig (at most one insertion, one-base deletion or soft clip per read)',
     'max_N_span = largest run of uncovered reference a single record may skip (parameter name); larger gaps split the molecule into several records',
     'TR = number of distinct random-primer (R2 start coordinate, primer sequence) classes, single-end fragments forming one class',
     'site tag DS: NlaIII = reference coordinate of the CATG the R1s start (end) with; CHIC = the DS tag the fragment class put on the source reads',
+    'a reference base deleted in a read (CIGAR D), soft clipped bases and unmapped reads cover no reference position',
+    'the reference file is partly lower case (soft-masked); a lower-case reference base equals its upper-case read base',
+    'for a molecule without a mapped R1 (no strand) or rejected by its class the strand flag and the DS tag are not specified; '
+    'TR is not specified when an R2 is unmapped',
 ]
 
 REF = 'GGATCTTCAAGGCTAG' + 'CATG' + 'ACCGTTAGACTGGATCCAATGCGTACGTTAACGGCTAAGT' + 'CATG' + 'CCAGTCAGGATTCAGC'
+REF_FASTA = REF[:24] + REF[24:52].lower() + REF[52:]      # what the reference FILE holds (MD is case-insensitive)
 S_FWD = 16          # CATG the forward molecules start with
 S_REV = 60          # CATG the reverse molecules end with
 R2_LEN = 6
@@ -64,7 +80,8 @@ def setup():
     d = tempfile.mkdtemp(dir='/dev/shm', prefix='c15_')
     path = os.path.join(d, 'ref.fa')
     with open(path, 'w') as f:
-        f.write('>chr1\n' + REF + '\n>chr2\n' + REF + '\n')
+        # the file is soft-masked like the usual genome builds: a lower-case stretch between the two cut sites
+        f.write('>chr1\n' + REF_FASTA + '\n>chr2\n' + REF_FASTA + '\n')
     pysam.faidx(path)
     _STATE.update(dir=d, fasta_path=path, owner=os.getpid())
     atexit.register(_cleanup)
@@ -130,15 +147,110 @@ def _letter_fragment(letter, strand):
         r1['seq'] = r1['seq'][:k] + ['T'] + r1['seq'][k:]
         r1['quals'] = r1['quals'][:k] + [Q_HI] + r1['quals'][k:]
         r1['cigar'] = [(0, k), (1, 1), (0, l1 - k)]
+    if variant == 'del1':
+        # R1 lacks one reference base (CIGAR D) next to its far end: the base behind the deletion is a covered block of
+        # exactly ONE position, the deleted position is covered by no base of this read; the motif end stays intact
+        if not strand:
+            r1['seq'] = list(REF[a:a + l1 - 1]) + [REF[a + l1]]
+            r1['cigar'] = [(0, l1 - 1), (2, 1), (0, 1)]
+        else:
+            r1['start'] = e - l1 - 1
+            r1['seq'] = [REF[e - l1 - 1]] + list(REF[e - l1 + 1:e])
+            r1['cigar'] = [(0, 1), (2, 1), (0, l1 - 1)]
+    if variant == 'offsite':
+        # R1 starts (ends) two bases inside the molecule, not at the CATG: NlaIII rejects the fragment
+        r1['start'] += -2 if strand else 2
+        r1['seq'] = list(REF[r1['start']:r1['start'] + l1])
+    if variant == 'sameori':
+        # both mates map to the same strand (not an inward pair): CHIC rejects the fragment
+        r2['reverse'] = r1['reverse']
+    if variant == 'clip':
+        # R1 is soft clipped at its far end (trailing clip on the forward strand, LEADING clip on the reverse strand):
+        # clipped bases are in the query but cover no reference position
+        if not strand:
+            r1['seq'] = r1['seq'] + ['G', 'A']
+            r1['quals'] = r1['quals'] + [Q_HI, Q_HI]
+            r1['cigar'] = [(0, l1), (4, 2)]
+        else:
+            r1['seq'] = ['G', 'A'] + r1['seq']
+            r1['quals'] = [Q_HI, Q_HI] + r1['quals']
+            r1['cigar'] = [(4, 2), (0, l1)]
     r1['seq'] = ''.join(r1['seq'])
     if gap is None:
-        if variant == 'mm2':
+        if variant in PAIRED_ONLY:
             raise ValueError(letter)
         return {'r1': r1, 'r2': None}
-    if variant == 'mm2':
+    if variant in ('mm2', 'r1un_mm2'):
         r2['seq'][mm2] = _alt(r2['seq'][mm2])
     r2['seq'] = ''.join(r2['seq'])
+    if variant == 'r2un':
+        # R2 did not map: as aligners write it, the record sits at the coordinate of its mapped mate, without CIGAR
+        r2 = {'unmapped': True, 'start': r1['start'], 'cigar': [], 'seq': 'ACGTAC', 'quals': [Q_HI] * 6, 'reverse': False}
+    if variant in STRANDLESS:
+        # R1 did not map, R2 did: the molecule has a mapped fragment but no strand (the strand is read from R1)
+        r1 = {'unmapped': True, 'start': r2['start'], 'cigar': [], 'seq': 'TGCATG', 'quals': [Q_HI] * 6, 'reverse': False}
     return {'r1': r1, 'r2': r2}
+
+
+STRANDLESS = ('r1un', 'r1un_mm2')                 # variants whose R1 is unmapped
+ODD_PAIRS = ('offsite', 'sameori')                # mapped pairs one of the site-bearing classes rejects
+SOLO = STRANDLESS + ODD_PAIRS                     # letters that are never mixed with the ordinary ones
+PAIRED_ONLY = ('mm2', 'r2un') + SOLO
+
+
+def strandless_alphabet(tier):
+    """letters of the strand-less molecules (R1 unmapped, R2 mapped), simplest first"""
+    gaps = [0, 3] if tier == 'quick' else [0, 3, 8]
+    return [[gap, v, 6] for gap in gaps for v in STRANDLESS]
+
+
+def solo_alphabet(tier):
+    """fragments that travel as one-fragment molecules: the site-bearing classes reject them (or, where one of them
+    accepts the shape, assign it to a site of its own); the molecule iterator hands a rejected fragment out as a
+    molecule and the tagger requests its consensus like any other"""
+    return strandless_alphabet(tier) + [[3, v, 6] for v in ODD_PAIRS]
+
+
+def _mapped(rd):
+    return rd is not None and not rd.get('unmapped')
+
+
+def _build_read(rd, name, is_read1, paired, tags, mate=None):
+    """gen.c13_reads.build_read plus the unmapped mate of a mapped read (own copy, the shared helper is not edited)"""
+    import pysam
+    if not rd.get('unmapped'):
+        read = G.build_read(REF, rd, name, is_read1, paired, tags)
+        if mate is not None and mate.get('unmapped'):
+            read.is_proper_pair = False
+            read.mate_is_unmapped = True
+        return read
+    read = pysam.AlignedSegment(G.header(len(REF)))
+    read.query_name = name
+    read.query_sequence = rd['seq']
+    read.query_qualities = pysam.qualitystring_to_array(''.join(chr(33 + q) for q in rd['quals']))
+    read.is_unmapped = True
+    read.is_paired = True
+    read.is_read1 = bool(is_read1)
+    read.is_read2 = not is_read1
+    read.mapping_quality = 0
+    read.reference_name = G.CONTIG           # placed at the mate, SAM convention
+    read.reference_start = rd['start']
+    for k, v in tags.items():
+        read.set_tag(k, v)
+    return read
+
+
+def build_reads(fd, name, tags):
+    r1, r2 = fd['r1'], fd.get('r2')
+    if r2 is None or (_mapped(r1) and _mapped(r2)):
+        return G.build_reads(REF, fd, name, tags)
+    a = _build_read(r1, name, True, True, tags, mate=r2)
+    b = _build_read(r2, name, False, True, tags, mate=r1)
+    for x, y in ((a, b), (b, a)):
+        x.next_reference_id = y.reference_id
+        x.next_reference_start = y.reference_start
+        x.mate_is_reverse = y.is_reverse
+    return [a, b]
 
 
 def alphabet(tier, level):
@@ -162,7 +274,13 @@ def alphabet(tier, level):
                 if tier == 'quick' and level >= 3 and variant == 'mm1lo' and gap not in (None, -2):
                     continue
                 out.append([gap, variant, l1])
-    return out
+    # letters added by the audit (appended: simplest-first order of the older letters is kept):
+    #   r2un - R2 unmapped, R1 mapped;  del1 - R1 with a one-base deletion (single-position block / one-base hole);
+    #   clip - R1 soft clipped at its far end.  Quick: words of <= 2 letters; thorough: r2un and del1 also in 3-letter words
+    extra = [[0, 'r2un', 6], [None, 'del1', 6], [0, 'del1', 6], [None, 'clip', 6], [0, 'clip', 6]]
+    if level >= 3:
+        extra = [] if tier == 'quick' else [[0, 'r2un', 6], [None, 'del1', 6]]
+    return out + extra
 
 
 CLASSES = ('nla', 'chic', 'plain')
@@ -192,7 +310,7 @@ def observations(frags):
     obs = {}
     for f in frags:
         for rd in (f['r1'], f.get('r2')):
-            if rd is None:
+            if not _mapped(rd):
                 continue
             for q, pos in G.aligned_pairs(rd):
                 obs.setdefault(pos, []).append((rd['seq'][q], rd['quals'][q]))
@@ -232,7 +350,9 @@ def expected_call(ob):
 def expected_TR(case):
     keys = set()
     for gap, variant, l1 in case['letters']:
-        keys.add(None if gap is None else (gap, variant == 'mm2'))
+        if variant == 'r2un':
+            return None            # the random-primer class of an UNMAPPED R2 is not defined by the property text: not checked
+        keys.add(None if gap is None else (gap, variant in ('mm2', 'r1un_mm2')))
     return len(keys)
 
 
@@ -266,6 +386,20 @@ def reference_from_md(md, query_aligned):
     if i != len(query_aligned):
         return None
     return out
+
+
+def md_false_mismatch(md, query_aligned):
+    """MD encodes the reference bases that DIFFER from the read (SAM tags specification): True when some letter of the
+    tag names, case-insensitively, the very base the record carries at that position"""
+    i = 0
+    for m in _MD_TOKEN.finditer(md):
+        if m.group(1) is not None:
+            i += int(m.group(1))
+        elif m.group(3) is not None:
+            if i < len(query_aligned) and query_aligned[i].upper() == m.group(3).upper():
+                return True
+            i += 1
+    return False
 
 
 def check_records(case, frags, records, site, n_source_written=None, expected_DS=None, sample=None, contig=None,
@@ -320,6 +454,9 @@ def check_records(case, frags, records, site, n_source_written=None, expected_DS
                 gapped = any(op == 3 for op, n in cig)
                 out.append((f"{site}:md-does-not-match-reference{'[gapped-record]' if gapped else ''}",
                             {'record': desc, 'md': rec.get_tag('MD'), 'true_reference_at_blocks': ''.join(truth)}))
+            elif md_false_mismatch(rec.get_tag('MD'), [seq[qi] for qi, _ in pairs]):
+                out.append((f'{site}:md-reports-mismatch-where-record-equals-reference',
+                            {'record': desc, 'md': rec.get_tag('MD'), 'true_reference_at_blocks': ''.join(truth)}))
         # base calls
         for qi, p in pairs:
             if p not in obs:
@@ -354,16 +491,31 @@ def check_records(case, frags, records, site, n_source_written=None, expected_DS
 def _site_name(case):
     api = {'dedup': 'deduplicate_majority', 'write_pysam': 'write_pysam[consensus]',
            'tagging': 'run_tagging_task[majority]', 'cli': 'bamtagmultiome[--consensus]'}[case['api']]
-    return f"{api}:{case['cls']}"
+    return f"{api}:{case['cls']}{_solo_label(case)}"
+
+
+def _strandless(case):
+    return any(l[1] in STRANDLESS for l in case['letters'])
+
+
+def _solo_label(case):
+    if _strandless(case):
+        return '[strandless]'
+    for l in case['letters']:
+        if l[1] in ODD_PAIRS:
+            return f'[{l[1]}]'
+    return ''
 
 
 def _build(case):
     frags = [_letter_fragment(l, case['strand']) for l in case['letters']]
-    reads = [G.build_reads(REF, fd, f'frag{i}', _tags(case['cls'])) for i, fd in enumerate(frags)]
+    reads = [build_reads(fd, f'frag{i}', _tags(case['cls'])) for i, fd in enumerate(frags)]
     return frags, reads
 
 
 def _expected_DS(case, fragment_objects, reads):
+    if _solo_label(case):
+        return None     # no R1 / rejected by the class: the property names no site for such a molecule, DS is not checked
     if case['cls'] == 'nla':
         return S_REV if case['strand'] else S_FWD
     if case['cls'] == 'chic':
@@ -390,7 +542,9 @@ def run_case(case):
             refused = 0
             for rl in reads:
                 fo = fcls(rl, **fargs)
-                if not fo.is_valid():
+                if not fo.is_valid() and not (_solo_label(case) and case['cls'] != 'plain' and len(reads) == 1):
+                    # (a site-bearing class rejects a fragment without R1; the molecule iterator then hands it out as
+                    #  a molecule of its own, whose consensus the tagger requests like any other)
                     raise HarnessError(f'fragment not valid: {case}')
                 try:
                     if not mol.add_fragment(fo):
@@ -427,9 +581,16 @@ def run_case(case):
                 os.unlink(path)
             else:
                 path = _scratch('w.bam')
+                handed = []
+                cb = {}
+                if case.get('callback') == 'plain':
+                    cb = {'consensus_read_callback': lambda rs: handed.append(len([r for r in rs if r is not None]))}
+                elif case.get('callback') == 'kwargs':
+                    cb = {'consensus_read_callback': lambda rs, mark=None: handed.append(len([r for r in rs if r is not None])),
+                          'consensus_read_callback_kwargs': {'mark': 1}}
                 with pysam.AlignmentFile(path, 'wb', header=header) as target:
                     mol.write_pysam(target, consensus=True, no_source_reads=bool(case.get('no_source_reads')),
-                                    consensus_name='consensus_0')
+                                    consensus_name='consensus_0', **cb)
                 with pysam.AlignmentFile(path, 'rb', check_sq=False) as back:
                     allrec = list(back.fetch(until_eof=True))
                 os.unlink(path)
@@ -445,7 +606,9 @@ def run_case(case):
                 run_tagging_task(pairs, target, molecule_iterator_class=MoleculeIterator,
                                  molecule_iterator_args={'molecule_class': mcls, 'fragment_class': fcls,
                                                          'molecule_class_args': {'reference': _fasta()},
-                                                         'fragment_class_args': dict(fargs), 'perform_qflag': False},
+                                                         'fragment_class_args': dict(fargs), 'perform_qflag': False,
+                                                         # as bamtagmultiome configures it unless --no_rejects is given
+                                                         'yield_invalid': True},
                                  consensus_mode='majority', no_source_reads=bool(case.get('no_source_reads')))
             with pysam.AlignmentFile(path, 'rb', check_sq=False) as back:
                 allrec = list(back.fetch(until_eof=True))
@@ -489,6 +652,14 @@ def cli_batch(tier):
             out.append((strand, [l]))
         for i, j in itertools.combinations_with_replacement(range(len(a3)), 2):
             out.append((strand, [a3[i], a3[j]]))
+        # a fragment whose R2 is unmapped next to every clean fragment shape (one molecule: strand and site come from R1)
+        for l in a1:
+            if l[1] == 'clean':
+                out.append((strand, [[0, 'r2un', 6], l]))
+        # fragments whose R1 is unmapped: rejected by the site-bearing classes, written (with a consensus request) as
+        # molecules of their own unless --no_rejects is given
+        for l in solo_alphabet(tier):
+            out.append((strand, [l]))
     return out
 
 
@@ -509,7 +680,7 @@ def run_cli_batch(tier, cls, nosrc):
         for i, (strand, letters) in enumerate(batch):
             tags = dict(_tags(cls), SM=f'CELL_{i}')
             frags = [_letter_fragment(l, strand) for l in letters]
-            rls = [G.build_reads(REF, fd, f'm{i}_{j}', tags) for j, fd in enumerate(frags)]
+            rls = [build_reads(fd, f'm{i}_{j}', tags) for j, fd in enumerate(frags)]
             for rl in rls:
                 for r in rl:
                     if r is not None:
@@ -574,11 +745,13 @@ def run_cli_batch(tier, cls, nosrc):
                 viols = [(f'{site}:{failure[0]}', failure[1])]
             else:
                 ds = None
-                if cls == 'nla':
+                if _solo_label(case):
+                    pass
+                elif cls == 'nla':
                     ds = S_REV if strand else S_FWD
                 elif cls == 'chic':
                     _, fcls, fargs = _classes(cls)
-                    fresh = [G.build_reads(REF, fd, 'x', _tags(cls)) for fd in frags]
+                    fresh = [build_reads(fd, 'x', _tags(cls)) for fd in frags]
                     vals = set()
                     for rl in fresh:
                         fcls(rl, **fargs)
@@ -603,7 +776,7 @@ def run_cli_batch(tier, cls, nosrc):
 
 # ---- bounds / shards ------------------------------------------------------------------------------
 def bounds(tier):
-    return {'reference_length': len(REF), 'max_fragments': 3,
+    return {'reference_length': len(REF), 'reference_lower_case_stretch': [24, 52], 'max_fragments': 3,
             'letters_level_1_2': len(alphabet(tier, 1)), 'letters_level_3': len(alphabet(tier, 3)),
             'mate_gaps_level_1_2': [g for g in dict.fromkeys(l[0] for l in alphabet(tier, 1))],
             'mate_gaps_level_3': [g for g in dict.fromkeys(l[0] for l in alphabet(tier, 3))],
@@ -611,7 +784,12 @@ def bounds(tier):
             'strands': [False, True], 'classes': list(CLASSES), 'max_N_span': [None, MAX_N_SPAN],
             'apis': ['dedup', 'write_pysam', 'tagging', 'cli (one run per class x no_source_reads)'],
             'cli_molecules_per_run': len(cli_batch(tier)), 'no_source_reads': [False, True],
-            'plain_class_max_fragments': 2}
+            'plain_class_max_fragments': 2,
+            'variants': [v for v in dict.fromkeys(l[1] for l in alphabet(tier, 1))],
+            'variants_level_3': [v for v in dict.fromkeys(l[1] for l in alphabet(tier, 3))],
+            'solo_letters': solo_alphabet(tier),
+            'strandless_molecule_max_fragments': {'plain': 2 if tier == 'quick' else 3, 'nla': 1, 'chic': 1},
+            'write_pysam_callback': ['none', 'plain', 'kwargs (one-letter words)']}
 
 
 def _configs(cls, level):
@@ -630,6 +808,8 @@ N_PART = 8
 
 def shards(tier):
     out = [('cli', cls, nosrc) for cls in CLI_CLASSES for nosrc in (False, True)]
+    for cls in CLASSES:
+        out.append(('solo', cls))
     for cls in CLASSES:
         for strand in (False, True):
             for level in (1, 2, 3):
@@ -655,6 +835,9 @@ def run_shard(shard, tier, acc):
                 acc.violation(sig, case, d)
         acc.execs += 1
         return
+    if shard[0] == 'solo':
+        _run_solo(shard[1], tier, acc)
+        return
     cls, strand, level, part, parts = shard
     alpha = alphabet(tier, level)
     for idx, combo in enumerate(itertools.combinations_with_replacement(range(len(alpha)), level)):
@@ -671,6 +854,17 @@ def run_shard(shard, tier, acc):
             acc.case(case, transitions=1 + info['records'], nontrivial=info['gapped'] or bool(info['conflict']), outcome=outcome)
             for sig, d in viols:
                 acc.violation(sig, case, d)
+        if level == 1:
+            # write_pysam's consensus_read_callback option (without / with keyword arguments): the records written are the same
+            for cbk in ('plain', 'kwargs'):
+                case = {'cls': cls, 'strand': strand, 'letters': letters, 'api': 'write_pysam', 'max_N_span': None,
+                        'no_source_reads': True, 'callback': cbk}
+                viols, info = run_case(case)
+                viols = [(sg.replace('write_pysam[consensus]', 'write_pysam[consensus,callback]', 1), d) for sg, d in viols]
+                acc.case(case, transitions=1 + info['records'], nontrivial=info['gapped'] or bool(info['conflict']),
+                         outcome=f"callback-{cbk}:" + _outcome('write_pysam', info))
+                for sig, d in viols:
+                    acc.violation(sig, case, d)
         if level >= 2:
             case = {'cls': cls, 'strand': strand, 'letters': letters, 'api': 'dedup', 'max_N_span': None, 'incremental': True}
             viols, info = run_case(case)
@@ -688,6 +882,31 @@ def run_shard(shard, tier, acc):
                 acc.violation(sig, case, d)
 
 
+def _run_solo(cls, tier, acc):
+    """One-fragment molecules of every solo letter; for the plain classes also the molecules of 2 (thorough: 3) fragments
+    all of which lack R1 (the plain classes group them; `strand` is then only the orientation of the mapped R2)."""
+    solo = solo_alphabet(tier)
+    alpha = strandless_alphabet(tier)
+    levels = (1,) if cls != 'plain' else ((1, 2) if tier == 'quick' else (1, 2, 3))
+    configs = [('dedup', None, None), ('dedup', MAX_N_SPAN, None), ('write_pysam', None, False), ('write_pysam', None, True)]
+    if cls != 'plain':
+        configs += [('tagging', None, False), ('tagging', None, True)]
+    for strand in (False, True):
+        for level in levels:
+            words = [[l] for l in solo] if level == 1 else \
+                [[alpha[i] for i in combo] for combo in itertools.combinations_with_replacement(range(len(alpha)), level)]
+            for letters in words:
+                for api, mns, nosrc in configs:
+                    case = {'cls': cls, 'strand': strand, 'letters': letters, 'api': api, 'max_N_span': mns}
+                    if nosrc is not None:
+                        case['no_source_reads'] = nosrc
+                    viols, info = run_case(case)
+                    acc.case(case, transitions=1 + info['records'], nontrivial=True,
+                             outcome=_solo_label(case)[1:-1] + ':' + _outcome(api, info))
+                    for sig, d in viols:
+                        acc.violation(sig, case, d)
+
+
 def replay(case):
     if case['api'] == 'cli':
         # a command-line case is one molecule of a batch run: re-run that batch, look at that molecule
@@ -697,6 +916,8 @@ def replay(case):
             raise HarnessError('command-line batch layout changed; cannot replay this case')
         return got[1]
     viols, _ = run_case(case)
+    if case.get('callback'):
+        viols = [(sg.replace('write_pysam[consensus]', 'write_pysam[consensus,callback]', 1), d) for sg, d in viols]
     if case.get('incremental'):
         viols = [(sg.replace('deduplicate_majority', 'deduplicate_majority:after-an-earlier-consensus-request', 1), d) for sg, d in viols]
     return viols
